@@ -131,6 +131,12 @@ def rule_sel_owner(ctx):
                     what = None
                     if x.get('k') == 'struct' and x.get('adt', '').split('::')[-1] in ('ExpandedField', 'TypeAlias') and all('e' in y for y in x.get('fields', [])):
                         f = {y['name']: y['e'] for y in x['fields']}
+                        if x['adt'].split('::')[-1] == 'ExpandedField':
+                            # only flattened spread fields are members of the struct just pushed; a named field whose
+                            # *type* is the pushed struct belongs to the enclosing struct wherever it is built
+                            fl_ = _strip(f.get('flatten') or {})
+                            if not (isinstance(fl_, dict) and fl_.get('k') == 'lit' and fl_['lit'].get('v') is True):
+                                continue
                         owner_expr = f.get('struct_id')
                         what = x['adt'].split('::')[-1]
                     elif x.get('k') in ('call', 'mcall') and any(f_ in fam for f_ in ctx.pv.local_fns(x.get('callee')) or []):
@@ -253,8 +259,8 @@ def rule_render_all(ctx):
             if c['method'] in CUT:
                 obs.append(bad('RENDER-ALL', '%s/%s' % (short(fn.path), c['method']), 'the stream of expanded items is cut by `%s`' % c['method'], c.get('sp', ''),
                                'items after the first one that renders to nothing (a denied deprecated field) are dropped too'))
-    if n < 3:
-        obs.append(bad('RENDER-ALL', 'floor', 'anchor-missing: expected >= 3 iterator adaptors over expanded items in the renderer, found %d' % n, '', 'checker lost its anchor'))
+    if n < 1:
+        obs.append(bad('RENDER-ALL', 'floor', 'anchor-missing: no iterator adaptor over expanded items found in the renderer', '', 'checker lost its anchor'))
     elif not obs:
         obs.append(ok('RENDER-ALL', 'scan', '%d adaptors over expanded fields / variants / types: none truncates the stream' % n, ''))
     return obs
@@ -280,7 +286,7 @@ def rule_derive_split(ctx):
                     seps.setdefault(short(fn.path), set()).add(repr(lits[-1]))
             if c.get('k') == 'mcall' and c['method'] in ('trim', 'trim_start', 'trim_end'):
                 trims.setdefault(short(fn.path), set()).add(c['method'])
-            if c.get('k') == 'path' and (c.get('res') or {}).get('path', '').endswith(('str::trim', 'str::trim_start', 'str::trim_end')):
+            if c.get('k') == 'path' and (c.get('res') or {}).get('path', '').split('::')[-1] in ('trim', 'trim_start', 'trim_end') and 'str' in (c.get('res') or {}).get('path', ''):
                 trims.setdefault(short(fn.path), set()).add(c['res']['path'].split('::')[-1])
     if len(seps) < 2:
         return [bad('DERIVE-SPLIT', 'floor', 'anchor-missing: expected the two derive-list accessors to split their option, found %s' % sorted(seps), '', 'checker lost its anchor')]
